@@ -1,6 +1,11 @@
 // Package utils provides shared utility functions used across the WTF application.
 package utils
 
+import (
+	"os"
+	"path/filepath"
+)
+
 // Min returns the minimum of two integers.
 func Min(a, b int) int {
 	if a < b {
@@ -15,4 +20,41 @@ func Max(a, b int) int {
 		return a
 	}
 	return b
+}
+
+// WriteFileAtomic replaces the file at path with data. The bytes go to a
+// temporary file in the same directory, which is synced and then renamed over
+// path, so a crash, a full disk or a failed write leaves either the complete
+// previous content or the complete new content, never a truncated mix
+// (os.WriteFile truncates the live file first and then writes into it).
+func WriteFileAtomic(path string, data []byte, perm os.FileMode) (err error) {
+	tmp, err := os.CreateTemp(filepath.Dir(path), "."+filepath.Base(path)+".tmp-*")
+	if err != nil {
+		return err
+	}
+	tmpName := tmp.Name()
+	closed := false
+	defer func() {
+		if err != nil {
+			if !closed {
+				_ = tmp.Close()
+			}
+			_ = os.Remove(tmpName)
+		}
+	}()
+
+	if _, err = tmp.Write(data); err != nil {
+		return err
+	}
+	if err = tmp.Chmod(perm); err != nil {
+		return err
+	}
+	if err = tmp.Sync(); err != nil {
+		return err
+	}
+	closed = true
+	if err = tmp.Close(); err != nil {
+		return err
+	}
+	return os.Rename(tmpName, path)
 }
